@@ -37,6 +37,15 @@ def mostFrequent : List Int → List (Int × Nat) → Int → Nat → Int
       let (hist', c) := histInc hist w
       if c > cnt then mostFrequent ws hist' w c else mostFrequent ws hist' best cnt
 
+/-- the two clamps of the nominal width: at least 107 above the smallest and below the largest
+non-default width (the one-byte range), then within ±32767 of all of them (the range of a
+charstring number; added by the repair) -/
+def nomClamp (nom0 mn mx : Int) : Int :=
+  let nom1 := if nom0 < mn + 107 * 65536 then mn + 107 * 65536
+              else if nom0 > mx - 107 * 65536 then mx - 107 * 65536 else nom0
+  if nom1 < mx - 32767 * 65536 then mx - 32767 * 65536
+  else if nom1 > mn + 32767 * 65536 then mn + 32767 * 65536 else nom1
+
 /-- `selectWidths`: `(defaultWidth, nominalWidth)`; when no glyph differs from the default width
 the nominal width is 0 (after the repair: it used to be `+Inf`, stored through the
 implementation-defined conversion `int32(+Inf)`).  The `Option` is kept for the callers; the
@@ -55,9 +64,7 @@ def selectWidths (ws : List Int) : Int × Option Int :=
       let mn := os.foldl min o
       let mx := os.foldl max o
       let nom0 := roundHA sum (fxOne * ws.length) * fxOne
-      let nom1 := if nom0 < mn + 107 * fxOne then mn + 107 * fxOne
-                  else if nom0 > mx - 107 * fxOne then mx - 107 * fxOne else nom0
-      (d, some (roundHA nom1 fxOne * fxOne))
+      (d, some (roundHA (nomClamp nom0 mn mx) fxOne * fxOne))
 
 /-- `makePrivateDict`: `int32(defaultWidth)`, `int32(nominalWidth)` (truncation towards zero),
 entries omitted when the float is zero -/
